@@ -127,7 +127,7 @@ def parse_freeform_docstr_examples(docstr, callname=None, modpath=None,
         nested = [
             p.orig_lines
             if p.want is None else
-            p.orig_lines + p.want.splitlines()
+            p.orig_lines + utils.util_str.split_lf_lines(p.want)
             for p in parts
         ]
         docsrc = '\n'.join(list(it.chain.from_iterable(nested)))
